@@ -693,6 +693,7 @@ pub fn case_strategy(p: &Profile) -> BoxedStrategy<Case> {
             faults: vec![],
             drain_every,
             drain_bits,
+            pad: 0,
         })
         .boxed()
 }
